@@ -249,8 +249,8 @@ class Purity:
     def __init__(self, rec):
         self.rec = rec
         self.modules = [m for m in loaded_modules()]
-        self.reg0 = D.registry(self.modules)
-        self.reg0_digest = D.registry_digest(self.reg0)
+        self.shape = None
+        self.reg0, self.reg0_digest = self.registry_now()
         self.io_events = collections.Counter()
         self.inside = False
         try:
@@ -263,8 +263,26 @@ class Purity:
             self.io_events[event] += 1
 
     def registry_now(self):
-        reg = D.registry(self.modules)
-        return reg, D.registry_digest(reg)
+        """Constants registry, restricted to what can be a constant: module-level containers that were EMPTY at import time are
+        accumulators / memo tables, not constants (a correct cache must not raise an alarm; a wrong one shows as a
+        history-dependent result), and a dict constant is compared on the keys it had at import."""
+        reg = D.registry(self.modules, raw=True)
+        if self.shape is None:
+            self.shape = {}
+            for k, v in reg.items():
+                if isinstance(v, (dict, list, set, bytearray)) and len(v) == 0:
+                    self.shape[k] = "accumulator"
+                elif isinstance(v, dict):
+                    self.shape[k] = set(v.keys())
+        out = {}
+        for k, v in reg.items():
+            sh = self.shape.get(k)
+            if sh == "accumulator":
+                continue
+            if isinstance(sh, set) and isinstance(v, dict):
+                v = {kk: vv for kk, vv in v.items() if kk in sh}
+            out[k] = D.canon(v)
+        return out, D.registry_digest(out)
 
     def call(self, hist, seq, group, name, fn, args):
         rec = self.rec
@@ -298,8 +316,8 @@ class Purity:
 def run(rec):
     import_all()
     quick = rec.tier == "quick"
+    mon = Purity(rec)                     # import-time snapshot of the constants, before anything has been called
     pool = build_pool(rec.seed, quick)
-    mon = Purity(rec)
     rng = rec.rng
     events = []
     n_hist = 2 if quick else 3
